@@ -14,12 +14,12 @@ def shift(value, delta):
 
 def build(rng, dtls):
     """n valid records followed by a tail; expected = the n records, remainder = tail"""
-    n = rng.choice((0, 1, 1, 2, 3, 5))
+    n = rng.choice(enc.MANY_COUNTS) if rng.random() < .06 else rng.choice((0, 1, 1, 2, 3, 5))
     w = core.Writer()
     vals = []
     for _ in range(n):
-        vals.append(enc.gen_dtls_record(rng, w, big=120) if dtls else enc.gen_plaintext_record(rng, w, big=120))
-    kind = rng.choice(('none', 'truncated', 'oversized', 'garbage', 'shortheader', 'badcontent'))
+        vals.append(enc.gen_dtls_record(rng, w, big=120 if n < 8 else 4) if dtls else enc.gen_plaintext_record(rng, w, big=120 if n < 8 else 4))
+    kind = rng.choice(('none', 'truncated', 'oversized', 'garbage', 'shortheader', 'badcontent', 'cutmessage', 'emptyrecord'))
     hdrlen = 13 if dtls else 5
     tail = b''
     if kind == 'truncated':
@@ -34,6 +34,12 @@ def build(rng, dtls):
         tail = tail[:hdrlen - 2] + (4).to_bytes(2, 'big') + tail[hdrlen:hdrlen + 4]     # complete record of unknown type
     elif kind == 'shortheader':
         tail = rng.randbytes(rng.randrange(1, hdrlen))
+    elif kind == 'cutmessage':
+        # a complete record whose (first) message is cut short by the record length
+        ct, body = rng.choice(((22, b'\x0e\x00\x00\x05ab'), (22, b'\x01\x00'), (21, b'\x01'), (24, b'\x01\x00\x09ab')))
+        tail = bytes([ct, 3, 3]) + (b'\0' * 8 if dtls else b'') + len(body).to_bytes(2, 'big') + body + rng.randbytes(rng.choice((0, 3)))
+    elif kind == 'emptyrecord':
+        tail = bytes([rng.choice((20, 21, 22, 24)), 3, 3]) + (b'\0' * 8 if dtls else b'') + b'\0\0' + rng.randbytes(rng.choice((0, 2)))
     elif kind == 'badcontent':
         tail = bytes([20, 3, 3]) + (b'\0' * 8 if dtls else b'') + (1).to_bytes(2, 'big') + b'\x02'           # CCS record with a wrong byte
     buf = w.bytes() + tail
@@ -93,12 +99,21 @@ def run(ctx):
                           {'lines': [alias[j], single[k]]}, key='alias')
     ctx.sample({'line': lines[0][:300], 'expect': cases[0][2], 'impl': core.split_side(impl[0])[0][:300], 'model': model[0][:300]})
     ctx.sample({'line': lines[N - 1][:300], 'expect': cases[N - 1][2], 'impl': core.split_side(impl[N - 1])[0][:300]})
+    # coverage-guided corpus: the multi-record parsers against the model, and the alias against parse_tls_plaintext on every record input
+    common.run_cg(ctx, ('tls_many ', 'dtls_records '), common.proj_value)
+    hx = sorted({l.split(' ')[1] for l in common.cg_lines(ctx, ('tls_plaintext ', 'tls_parser ', 'tls_many ', 'tls_raw '))})
+    ai, _ = ctx.run_both(['tls_parser ' + h for h in hx] + ['tls_plaintext ' + h for h in hx])
+    for j, h in enumerate(hx):
+        ra, rs = core.split_side(ai[j])[0], core.split_side(ai[len(hx) + j])[0]
+        ctx.count('cg/tls_parser_alias', core.res_class(ra))
+        if ra != rs:
+            ctx.violation('tls_parser differs from parse_tls_plaintext on %s: "%s" vs "%s"' % (h[:80], ra[:120], rs[:120]), {'lines': ['tls_parser ' + h, 'tls_plaintext ' + h]}, key='alias')
     exact, mutants = common.gen_cases(ctx, ['tls_many', 'dtls_records', 'tls_parser'], 800 if ctx.thorough else 100)
     common.run_exact(ctx, exact)
     common.run_differential(ctx, mutants, common.proj_value)
     common.lean_failure_violation(ctx, ok)
     return ctx.finish(LEVEL,
-        rule='buffers = 0..5 valid TLS (resp. DTLS) records followed by nothing / a truncated record / an oversized header / a complete record of unknown type / a short header / a record with bad content; oracle: exactly the leading records, remainder = the tail, success iff the single-record parser succeeds on the same buffer; tls_parser vs parse_tls_plaintext on every buffer; distinct = (op, tail kind, record count class, outcome)',
+        rule='buffers = 0..5 (sometimes 15..400) valid TLS (resp. DTLS) records followed by nothing / a truncated record / an oversized header / a complete record of unknown type / a short header / a record with bad content / a complete record whose message is cut short / an empty record; oracle: exactly the leading records, remainder = the tail, success iff the single-record parser succeeds on the same buffer; tls_parser vs parse_tls_plaintext on every buffer; distinct = (op, tail kind, record count class, outcome)',
         checker_cmd='cd /verif/lean && lake build TlsModel.Props.C16 TlsModel.Props.C10',
         assumptions=[])
 
